@@ -177,6 +177,10 @@ def check_field_update(K_, V, value_pred, mask_pred):
        (a) K == !(mask SH s) and V == value SH s with the same shift SH s, or
        (b) K == (1 << s) - 1 and V == value << s.
     Returns (ok, description)."""
+    # one spelling for the low mask: (1 << s) - 1, MAX >> (BITS - s), !(MAX << s)
+    cK = canon_masks(K_)
+    if cK[0] == "lowmask":
+        K_ = mk_op("-", mk_op("<<", ("int", 1), cK[1]), ("int", 1))
     vx, vop, vs = shift_parts(V)
     if not value_pred(vx):
         return False, "the OR-ed term `%s` is not the (shifted) value" % tshow(V)
